@@ -319,7 +319,9 @@ pub fn run_child(ctx: &mut Ctx) {
                     let want: &[u8] = match r { None => &bytes[..], Some((a, b)) => &bytes[a as usize..b as usize] };
                     match res { Ok(n) if got == want && n as usize == want.len() => {}
                         Ok(n) => ctx.fail("C01", "download-mismatch", format!("download of file {pi} range {r:?} returned {} bytes (reported {n}), expected {}", got.len(), want.len()), replay.clone()),
-                        Err(e) => ctx.fail("C01", "download-error", format!("download of file {pi} range {r:?} failed: {e}"), replay.clone()) }
+                        Err(e) => { ctx.fail("C01", "download-error", format!("download of file {pi} range {r:?} failed: {e}"), replay.clone());
+                                    // every session so far reported success: a file that cannot be reconstructed from the store is also C16's concern
+                                    ctx.fail("C16", "success-but-not-reconstructible", format!("all sessions reported success, yet file {pi} cannot be reconstructed from the store: {e}"), replay.clone()); } }
                     ctx.stat("downloads");
                 }
                 let _ = std::fs::remove_file(&out_path);
